@@ -299,11 +299,12 @@ def tbProject (O : AtlasOracle σ S U C D) (s : σ) (x : S) : Option (Bool × S 
       some (v.1, p.1.2, v.2)
     else some (false, p.1.2, p.2)
 
-/-- `TangentBundleStateSpace::geodesicInterpolate(geodesic, t)`.  `project` works **in place** on
-the picked list element (`psi` writes its iterate into it whether or not it converges), and the
-failure path returns `geodesic[0]` — which *is* that overwritten element when the pick was index 0
-(a one-element list, or total length ≤ epsilon).  `r.2.1` is what `psi` left behind. -/
-def tbPick (A : Arith D) (Am : Ambient S D) (O : AtlasOracle σ S U C D) (s : σ) (g : List S) (t : D) :
+/-- `TangentBundleStateSpace::geodesicInterpolate(geodesic, t)` **before** the fix 8af6fc6c7 (F74),
+kept for the witness `tb_interpolate_old_alias_fails`.  `project` works in place on the picked list
+element (`psi` writes its iterate into it whether or not it converges), and the failure path returns
+`geodesic[0]` — which *is* that overwritten element when the pick was index 0.  `r.2.1` is what
+`psi` left behind. -/
+def tbPickOld (A : Arith D) (Am : Ambient S D) (O : AtlasOracle σ S U C D) (s : σ) (g : List S) (t : D) :
     Option (S × σ) :=
   match geodesicInterpolateIdx A Am g t with
   | none => none
@@ -318,12 +319,35 @@ def tbPick (A : Arith D) (Am : Ambient S D) (O : AtlasOracle σ S U C D) (s : σ
         else if i = 0 then some (r.2.1, r.2.2)          -- geodesic[0] was overwritten by the failed projection
         else (g.head?).map (fun y => (y, r.2.2))
 
-/-- `ConstrainedStateSpace::interpolate` on a TangentBundle space (virtual dispatch to the two
+/-- `TangentBundleStateSpace::geodesicInterpolate(geodesic, t)` as it is now:
+`if (state == geodesic[0]) return state;` (pointer equality = the pick is index 0: no projection at
+all), otherwise `project` in place and `geodesic[0]` (untouched) on failure. -/
+def tbPick (A : Arith D) (Am : Ambient S D) (O : AtlasOracle σ S U C D) (s : σ) (g : List S) (t : D) :
+    Option (S × σ) :=
+  match geodesicInterpolateIdx A Am g t with
+  | none => none
+  | some i =>
+    match g[i]? with
+    | none => none
+    | some x =>
+      if i = 0 then some (x, s)
+      else
+        match tbProject O s x with
+        | none => none
+        | some r => if r.1 then some (r.2.1, r.2.2) else (g.head?).map (fun y => (y, r.2.2))
+
+/-- `ConstrainedStateSpace::interpolate` on a TangentBundle space (virtual dispatch to the
 functions above). -/
 def tbInterpolate (A : Arith D) (Am : Ambient S D) (O : AtlasOracle σ S U C D) (P : AtlasParams D)
     (isFin : D → Bool) (fuel : Nat) (s : σ) (frm to : S) (t : D) : Option (S × σ) :=
   let r := tbGeo A Am O P isFin fuel s frm to true
   if r.1 then tbPick A Am O r.2.2 r.2.1 t else some (frm, r.2.2)
+
+/-- the same before the fix -/
+def tbInterpolateOld (A : Arith D) (Am : Ambient S D) (O : AtlasOracle σ S U C D) (P : AtlasParams D)
+    (isFin : D → Bool) (fuel : Nat) (s : σ) (frm to : S) (t : D) : Option (S × σ) :=
+  let r := tbGeo A Am O P isFin fuel s frm to true
+  if r.1 then tbPickOld A Am O r.2.2 r.2.1 t else some (frm, r.2.2)
 
 /-! ### `AtlasStateSampler` -/
 
